@@ -16,7 +16,14 @@
      - convert() with NullCtx called where the status is DISABLED does not run a user-requested conversion,
      - directly under a do_not_convert (unspecified-status) wrapper the call-site status is DISABLED (UNSPECIFIED);
    together (status_inside_stacked_do_not_convert): do_not_convert applied to an artifact or to a convert()
-   wrapper reports DISABLED inside. *)
+   wrapper reports DISABLED inside.
+   Inner functions of converted code (KNested / KNestedG: a def nested in an entity converted by convert() /
+   to_graph() with any user_requested / recursive flags, handed out as closure or callback and called from
+   anywhere): the call enters no context, the function reports the status of its call site -- DISABLED when it is
+   called back from inside a do_not_convert region or wrapped by do_not_convert (status_inside_nested_function).
+   This rests on the side condition scope_options_ok of tables_ok: the code generator
+   (converters/functions.py _function_scope_options) gives user-requested options to the top-level function of
+   an entity only. *)
 From Coq Require Import List Bool.
 Import ListNotations.
 Require Import MV.Ctx.CtxSyntax MV.Ctx.Stack MV.Ctx.StackSpec MV.Ctx.StackProofs MV.Generated.C16_gen.
@@ -41,15 +48,29 @@ Qed.
 
 Theorem status_inside_stacked_do_not_convert : forall T, tables_ok T = true -> forall t st, tr st = [] ->
   forall o pre, In o (trace (snd (exec T t st))) -> ob_outer o = pre ++ [KDoNotConvert] ->
-    (ob_kind o = KArtifact \/ ob_kind o = KPlain \/ exists ur rc, ob_kind o = KConvert ur rc MNull) ->
+    (ob_kind o = KArtifact \/ ob_kind o = KPlain \/ (exists ur rc, ob_kind o = KConvert ur rc MNull)
+     \/ (exists ur rc, ob_kind o = KNested ur rc) \/ (exists rc, ob_kind o = KNestedG rc)) ->
     cst (ob_top o) = Disabled.
 Proof.
   intros T H t st Htr o pre Hin Ho Hk.
   destruct (status_inside T H t st Htr o Hin) as [_ [_ [_ [_ [_ [_ [G [I J]]]]]]]].
   assert (Hcs : ob_call_status o = Disabled) by (eapply J; [exact Ho | reflexivity]).
   rewrite <- Hcs. apply G.
-  destruct Hk as [E|[E|[ur [rc E]]]]; rewrite E; simpl; auto.
+  destruct Hk as [E|[E|[[ur [rc E]]|[[ur [rc E]]|[rc E]]]]]; rewrite E; simpl; auto.
   eapply I; eauto.
+Qed.
+
+Theorem status_inside_nested_function : forall T, tables_ok T = true -> forall t st, tr st = [] ->
+  forall o, In o (trace (snd (exec T t st))) ->
+    ((exists ur rc, ob_kind o = KNested ur rc) \/ (exists rc, ob_kind o = KNestedG rc)) ->
+    cst (ob_top o) = ob_call_status o
+    /\ (forall pre, ob_outer o = pre ++ [KDoNotConvert] -> cst (ob_top o) = Disabled).
+Proof.
+  intros T H t st Htr o Hin Hk. split.
+  - destruct (status_inside T H t st Htr o Hin) as [_ [_ [_ [_ [_ [_ [G _]]]]]]].
+    apply G. destruct Hk as [[ur [rc E]]|[rc E]]; rewrite E; exact Logic.I.
+  - intros pre Ho. apply (status_inside_stacked_do_not_convert T H t st Htr o pre Hin Ho).
+    destruct Hk as [E|E]; auto.
 Qed.
 
 Theorem status_inside_current_source : forall t o,
@@ -68,6 +89,17 @@ Example status_inside_stacked_nonvacuous :
   map (fun o => (cst (ob_top o), ob_urconv o, ob_outer o)) (trace (snd (exec gen_tables t (init_state gen_tables))))
   = [(Disabled, false, [KDoNotConvert])].
 Proof. vm_compute. reflexivity. Qed.
+(* non-vacuity: a non-recursive user-requested conversion whose function calls a do_not_convert'ed function that
+   calls back an inner function of a converted entity: ENABLED, DISABLED in the region, DISABLED in the callback
+   (one context object for the region and the callback), the same in a recursive conversion and for to_graph *)
+Example status_inside_nested_nonvacuous :
+  forall k, In k [KNested true false; KNested true true; KNested false false; KNestedG false; KNestedG true] ->
+  let t := Node 1 (KConvert true false MNull) false false None
+             [Node 2 KDoNotConvert false false None [Node 3 k false false None []]] in
+  map (fun o => (ob_lbl o, cst (ob_top o), cid (ob_top o))) (trace (snd (exec gen_tables t (init_state gen_tables))))
+  = [(1, Enabled, 4); (2, Disabled, 5); (3, Disabled, 5); (2, Disabled, 5); (1, Enabled, 4)].
+Proof. intros k Hk. simpl in Hk. repeat (destruct Hk as [<-|Hk]; [vm_compute; reflexivity|]). contradiction. Qed.
 Print Assumptions status_inside.
+Print Assumptions status_inside_nested_function.
 Print Assumptions status_inside_stacked_do_not_convert.
 Print Assumptions status_inside_current_source.
